@@ -35,18 +35,22 @@ pub fn hypot_stub(x: f64, y: f64) -> f64 {
 const PI: f64 = core::f64::consts::PI;
 
 /// all field values of a decoded type-19 report (type invariant: the sub-structure matches st)
-pub fn obl_velocity_calc(s: &mut Src, ctx: &mut Ctx, st_fixed: u8) {
+pub fn obl_velocity_calc(s: &mut Src, ctx: &mut Ctx, st_fixed: u8, part: u8) {
     // the subtype is a concrete parameter (0..=7), enumerated by the driver: keeps the scale and the
-    // variant concrete for CBMC
+    // variant concrete for CBMC.  `part` splits the contract so that each CBMC run stays small:
+    // 0 = all velocity / vertical-rate words symbolic, the ghost results of atan2 / hypot fixed
+    //     (decides: None-ness, arguments passed to atan2 / hypot, vertical rate);
+    // 1 = velocity words fixed (east -211 kt, north +304 kt raw), ghost results symbolic within the
+    //     envelope (decides: degrees conversion, wrap into [0, 360), ground speed passed through).
     let st = st_fixed & 7;
-    let ew_dir = s.bool();
-    let ns_dir = s.bool();
-    let ew_raw = s.u16() & 0x3ff;
-    let ns_raw = s.u16() & 0x3ff;
+    let ew_dir = if part == 1 { true } else { s.bool() };
+    let ns_dir = if part == 1 { false } else { s.bool() };
+    let ew_raw = if part == 1 { 212 } else { s.u16() & 0x3ff };
+    let ns_raw = if part == 1 { 305 } else { s.u16() & 0x3ff };
     let vr_sign = s.bool();
-    let vr_raw = s.u16() & 0x1ff;
-    let ret_a = s.f64();
-    let ret_h = s.f64();
+    let vr_raw = if part == 1 { 17 } else { s.u16() & 0x1ff };
+    let ret_a = if part == 0 { -0.6 } else { s.f64() };
+    let ret_h = if part == 0 { 370.0 } else { s.f64() };
     let sg = |b: bool| if b { Sign::Negative } else { Sign::Positive };
     let sub_type = if st == 1 || st == 2 {
         AirborneVelocitySubType::GroundSpeedDecoding(GroundSpeedDecoding { ew_sign: sg(ew_dir), ew_vel: ew_raw, ns_sign: sg(ns_dir), ns_vel: ns_raw })
@@ -70,7 +74,7 @@ pub fn obl_velocity_calc(s: &mut Src, ctx: &mut Ctx, st_fixed: u8) {
     };
     let spec = velocity_int_spec(st, ew_dir as u8, ew_raw, ns_dir as u8, ns_raw, vr_sign as u8, vr_raw);
     // envelope contract assumed of libm::atan2 for integer arguments of magnitude <= 4088
-    if let Some((e, n, _)) = spec {
+    if let (Some((e, n, _)), 1) = (spec, part) {
         vrequire!(ctx, ret_a >= -PI && ret_a <= PI);
         vrequire!(ctx, (ret_a == 0.0) == (e == 0 && n >= 0));
         vrequire!(ctx, !(e > 0) || ret_a >= 1e-4);
@@ -106,6 +110,9 @@ pub fn obl_velocity_calc(s: &mut Src, ctx: &mut Ctx, st_fixed: u8) {
                 let wrapped = if deg < 0.0 { deg + 360.0 } else { deg };
                 let d = h as f64 - wrapped;
                 vcheck!(ctx, d <= 1e-4 && d >= -1e-4, "[C07] track == atan2 in degrees wrapped into [0, 360)");
+                if part == 1 {
+                    vcheck!(ctx, h >= 0.0 && h < 360.0, "[C07] track lies in [0, 360)");
+                }
             }
             #[cfg(not(kani))]
             {
@@ -116,10 +123,13 @@ pub fn obl_velocity_calc(s: &mut Src, ctx: &mut Ctx, st_fixed: u8) {
                 let gd = g - libm::hypot(e as f64, n as f64);
                 vcheck!(ctx, gd <= 1e-9 && gd >= -1e-9, "[C07] ground speed is the Euclidean norm of (east, north)");
             }
-            vcheck!(ctx, h >= 0.0 && h < 360.0, "[C07] track lies in [0, 360)");
+            #[cfg(not(kani))]
+            {
+                vcheck!(ctx, h >= 0.0 && h < 360.0, "[C07] track lies in [0, 360)");
+            }
         }
     }
     vcover!(spec.is_some(), "cover: a ground-speed report with information");
-    vcover!(spec.is_none() && (st == 1 || st == 2), "cover: a ground-speed report without information");
+    vcover!(part == 1 || (spec.is_none() && (st == 1 || st == 2)), "cover: a ground-speed report without information");
 }
 
